@@ -12,15 +12,31 @@ open Kopf Kopf.J
 
 /-! ## `Patch._apply_patch` -/
 
+/-- The first step of the `Mapping` case (repair 74dc18a):
+      `target = dicts.resolve(body, path, absent) if path else body`
+      `if target is not absent and not isinstance(target, Mapping): dicts.ensure(body, path, {})`.
+    `resolve` yields `absent` for a missing key and for a non-mapping intermediate (`J.resolve?`);
+    with an empty path it yields the body itself (so a non-mapping body makes `ensure` raise
+    ValueError: never totalised away). -/
+def clearNonMapping (body : J) (path : List String) : Except DictErr J :=
+  match resolve? body path with
+  | none => .ok body
+  | some (.obj _) => .ok body
+  | some _ => ensure body path (.obj [])
+
 mutual
   /-- `_apply_patch(body, path, value)`:
         `None`    → `dicts.remove(body, path)`
-        `Mapping` → for every `(key, val)`: `_apply_patch(body, path + (key,), val)` (body threaded)
+        `Mapping` → a present non-mapping target is first replaced by `{}` (`clearNonMapping`), then
+                    for every `(key, val)`: `_apply_patch(body, path + (key,), val)` (body threaded)
         otherwise → `dicts.ensure(body, path, value)`.
       `ensure`/`remove` raise `TypeError` on a non-mapping parent: kept as `Except`. -/
   def applyInstr (body : J) (path : List String) : J → Except DictErr J
     | .null => remove body path
-    | .obj kvs => applyKvs body path kvs
+    | .obj kvs =>
+        match clearNonMapping body path with
+        | .ok b => applyKvs b path kvs
+        | .error e => .error e
     | .bool b => ensure body path (.bool b)
     | .num n => ensure body path (.num n)
     | .str s => ensure body path (.str s)
@@ -33,9 +49,10 @@ mutual
         | .error e => .error e
 end
 
-/-- the merge-instruction part of `as_json_patch`: `self._apply_patch(body_to_be, (), dict(self))`. -/
+/-- the merge-instruction part of `as_json_patch`: `self._apply_patch(body_to_be, (), dict(self))`
+    (the root call is the `Mapping` case with the empty path). -/
 def applyPatch (body : J) (patch : List (String × J)) : Except DictErr J :=
-  applyKvs body [] patch
+  applyInstr body [] (.obj patch)
 
 /-! ## specification vocabulary for the fidelity clause -/
 
@@ -65,25 +82,6 @@ mutual
         | .obj [] => dropEmptyKvs rest
         | v' => (k, v') :: dropEmptyKvs rest
 end
-
-mutual
-  /-- the patch value `v` is well-typed over the target `t` (`none` = absent key): patch mappings
-      only descend into mappings or absent keys. Leaf and `null` instructions are always fine. -/
-  def wtAt (t : Option J) : J → Bool
-    | .obj pk =>
-        match t with
-        | none => true
-        | some (.obj tk) => wtKvs tk pk
-        | some _ => false
-    | _ => true
-  def wtKvs (tk : List (String × J)) : List (String × J) → Bool
-    | [] => true
-    | (k, v) :: rest => wtAt (lookup k tk) v && wtKvs tk rest
-end
-
-/-- `patch` (a Python dict: keys unique at every level) is well-typed over `body`. -/
-def WellTyped (body : J) (patch : List (String × J)) : Prop :=
-  wtAt (some body) (.obj patch) = true ∧ J.wf (.obj patch) = true
 
 /-! ## transformation functions (`patch.fns`) — the two the framework itself queues:
       `functools.partial(finalizers.block_deletion, finalizer=f)` and `…allow_deletion…`. -/
